@@ -5,7 +5,8 @@ ways.  The functions below rewrite a (deep-copied) function body into the spelli
 rewrite is justified syntactically:
 
   inline_temps      `t = <pure expr>` assigned exactly once, every read in a later statement of the same block, no name the
-                    value reads re-bound / updated in between   ->  the reads are replaced by the value, the statement dropped
+                    value reads re-bound / updated in place / handed to a non-pure call in between, the object `t` holds not
+                    updated in place, a new container read once only   ->  the reads are replaced by the value, the statement dropped
                     (covers loop-invariant hoists: the definition in front of a loop, the reads inside it).
   inline_helpers    `_helper(args)` / `self._helper(args)` where the callee is a private module-level function / a private
                     method of the same class, defined in the same file, undecorated, not recursive, whose body is (after
@@ -180,6 +181,27 @@ def _blocks(fn):
     return out
 
 
+def _passed_to_calls(span, name, free):
+    """names of `free` handed (as an argument, or as the receiver of a method) to a call that is not known to be pure and
+    that runs BEFORE some read of `name` in `span`: the callee may update the object in place (a call whose own arguments
+    contain the read runs after it and does not count)"""
+    out = set()
+    for t in span:
+        for c in ast.walk(t):
+            if not isinstance(c, ast.Call) or is_pure(c):
+                continue
+            if t is span[-1] and _count_loads([c], name) and not any(_count_loads([x], name) for x in ast.walk(c.func)):
+                # the read is inside this call's arguments; other reads later in the same statement are not ordered
+                # syntactically, so only a statement with a single read qualifies
+                if _count_loads([t], name) == 1:
+                    continue
+            inside = list(c.args) + [k.value for k in c.keywords]
+            if isinstance(c.func, ast.Attribute):
+                inside.append(c.func.value)
+            out |= loads(inside) & free
+    return out
+
+
 def _mutable_valued(e):
     """the value may be a NEW mutable container (its identity matters when it is read more than once)"""
     if isinstance(e, (ast.List, ast.ListComp, ast.Dict, ast.Set, ast.DictComp, ast.SetComp)):
@@ -224,6 +246,8 @@ def inline_temps(fn, keep=(), only=None):
                     continue
                 if name in touched(later):
                     continue            # the object the name holds is updated in place: its identity matters
+                if span and _passed_to_calls(span, name, free - PURE_NAMES):
+                    continue            # something the value reads is handed to a call that may update it before a read
                 if _mutable_valued(s.value) and (total > 1 or any(isinstance(x, (ast.For, ast.While)) for x in span)):
                     continue            # a new container read several times / inside a loop: one object, not one per read
                 if any(isinstance(x, (ast.FunctionDef, ast.Lambda, ast.ClassDef)) and _count_loads([x], name)
